@@ -30,7 +30,7 @@ def main():
     ok, why = True, []
     try:
         demo_src = os.path.join(src, "demo.rs")
-        demo_dst = os.path.join(wt, meta["demo_path"])
+        demo_dst = os.path.join(wt, meta["demo_path"].split()[0])
         os.makedirs(os.path.dirname(demo_dst), exist_ok=True)
         shutil.copy(demo_src, demo_dst)
         cmd = meta["demo_cmd"]
